@@ -249,6 +249,22 @@ class C12:
         if any("skipped" in c or "instrs_err" in c for c in d["dis"]):
             res.reject = "code-object-above-size-cap-or-undecodable(C02's subject)"
             return res
+        def has_break(t):
+            if not isinstance(t, list) or not t:
+                return False
+            if t[0] in ("t", "y") and isinstance(t[1], str):
+                return "0a" in [t[1][j:j + 2] for j in range(0, len(t[1]), 2)] or "0d" in [t[1][j:j + 2] for j in range(0, len(t[1]), 2)]
+            if t[0] in ("T", "L", "S", "Z"):
+                return any(has_break(e) for e in t[1])
+            if t[0] == "D":
+                return any(has_break(a) or has_break(b) for a, b in t[1])
+            if t[0] == "C":
+                return any(has_break(v_) for f_, v_ in t[1].items() if f_ in ("co_consts", "co_names", "co_varnames"))
+            return False
+        if tuple(d["header"]["version"][:2]) < (3, 0) and has_break(d.get("tree")):
+            # the same for the constants listed in the code-info header of a Python 2 file
+            res.reject = "operand-text-with-raw-line-break"
+            return res
         if any("\n" in (i["r"] or "") or "\r" in (i["r"] or "") for c in d["dis"] for i in c["instrs"]):
             # the repr xdis gives Python 2 unicode constants is not escaped; a raw line break inside an
             # operand cannot be parsed back line by line (not what this property is about)
